@@ -15,6 +15,22 @@ FINDINGS = [
         site="cdd/json_schema/utils/emit_utils.py:param2json_schema_property (del _param['default'] when in none_types)",
         example="{'alpha': {'typ': 'Optional[int]', 'default': NoneStr}} -> property without default -> parsed interface without default",
     ),
+    dict(
+        id="C06-literal-members-not-regex-escaped",
+        property="C06",
+        pattern=dict(check="json_schema", clause="literal_pattern_inexact", kind="rejects_member", metachars=True),
+        what="Literal members are joined into the pattern without escaping, so a member containing a regex metacharacter ('a+b', 'v1.5') is not matched by its own pattern ('a+b' matches 'aab', not 'a+b')",
+        site="cdd/json_schema/utils/emit_utils.py:param2json_schema_property ('pattern': '|'.join(enum))",
+        example="{'alpha': {'typ': \"Literal['v1.5', 'a+b']\"}} -> {'pattern': 'a+b|v1.5'}; re.search('a+b|v1.5', 'a+b') is None",
+    ),
+    dict(
+        id="C06-literal-default-with-metachar-fails-own-pattern",
+        property="C06",
+        pattern=dict(check="json_schema", clause="default_invalid_for_own_schema", typ_class="Literal", metachars=True),
+        what="consequence of the previous finding: a default that is such a member does not validate against its own property schema",
+        site="cdd/json_schema/utils/emit_utils.py:param2json_schema_property",
+        example="{'alpha': {'typ': \"Literal['v1.5', 'a+b']\", 'default': 'a+b'}}",
+    ),
 ]
 FIXED = [
     "fixed: property=C06 5f2c9cf an interface with an empty description emitted \"description\": null, which the draft 2020-12 meta-schema rejects and cdd.json_schema.parse.json_schema crashed on",
